@@ -158,7 +158,9 @@ impl<F: Float + SampleUniform + std::fmt::Debug, D: Hash + Copy, H: Hasher + Def
         let k: usize = Uniform::<usize>::new(0, m)
             .unwrap()
             .sample(&mut rand_generator); // m beccause upper bound of range is excluded
-        if r <= self.hsketch[k] {
+        // ties on r between 2 different items do occur (a f32 has only 2^23 values in [0,1)) : break them on the hash so that
+        // the sketch does not depend on the order in which items are seen
+        if r < self.hsketch[k] || (r == self.hsketch[k] && hval1 <= self.values[k]) {
             self.hsketch[k] = r;
             self.values[k] = hval1;
             if !self.init[k] {
@@ -324,7 +326,9 @@ impl<F: Float + SampleUniform + std::fmt::Debug, D: Hash + Copy, H: Hasher + Def
         let unit_range = Uniform::<F>::new(num::zero::<F>(), num::one::<F>()).unwrap();
         let r: F = unit_range.sample(&mut rand_generator);
         let k: usize = unif_0m.sample(&mut rand_generator); // m beccause upper bound of range is excluded
-        if r <= self.hsketch[k] {
+        // ties on r between 2 different items do occur (a f32 has only 2^23 values in [0,1)) : break them on the hash so that
+        // the sketch does not depend on the order in which items are seen
+        if r < self.hsketch[k] || (r == self.hsketch[k] && hval1 <= self.values[k]) {
             self.hsketch[k] = r;
             self.values[k] = hval1;
             if !self.init[k] {
